@@ -527,11 +527,22 @@ class PythonTypesBackend(CodeBackend):
         class_name = class_name_for_data_type(data_type)
         for field in data_type.fields:
             if field.has_default:
+                field_dt = unwrap_aliases(field.data_type)[0]
+                if is_timestamp_type(field_dt):
+                    # The spec gives the default as text in the declared
+                    # format; the field holds a datetime.
+                    self.emit('import datetime')
+                    value = 'datetime.datetime.strptime({!r}, {!r})'.format(
+                        field.default, field_dt.format)
+                elif is_bytes_type(field_dt) and isinstance(field.default, str):
+                    value = repr(field.default.encode('utf-8'))
+                else:
+                    value = self._generate_python_value(ns, field.default)
                 self.emit(
                     "{}.{}.default = {}".format(
                         class_name,
                         fmt_var(field.name),
-                        self._generate_python_value(ns, field.default))
+                        value)
                 )
 
     def _generate_struct_class_init(self, data_type):
